@@ -110,6 +110,7 @@ func runOne(p *eng.Program, vdir, id, tier string, seed int, t0 time.Time, only 
 		return 1
 	}
 	c := eng.NewCtx(p, id, tier)
+	rules.UseProgram(p)
 	for _, r := range pr.Rules {
 		func() {
 			defer func() {
